@@ -59,7 +59,7 @@ const techSX = "symbolic execution of the real code's go/ssa (GoSX) with SMT (z3
 var properties = map[string]propSpec{
 	"C01": {
 		Level: "model_checking", Technique: techSX + "; differential against a reference interpreter (refEval) over an explicit model tree built from the same symbolic leaves",
-		Bounds:  [2]string{"datum {x: V, y: scalar}: V over 21 shapes (10 scalar kinds incl. named, pointer, nil pointer, json.Number, nil; []interface{} of 0..2 scalars, []int8, [2]string, map[string]interface{} over 2 keys, map[string]int8, tagged struct (renamed/hidden/unexported/untagged fields, behind a pointer or not), []*int8 with nil, []byte, named-string-keyed map, list of maps, []struct), leaves symbolic; quick: a seed-selected twelfth of the (shape, operator) pairs; 15 selector forms x 8 operators x 6 literals (quick: 8 x 8 x 3), with and without an unknown value; 13 composite templates (connectives, quantifiers in all binding modes, nested, aliases, JSON pointers); three Go representations of one document", "all 21 shapes"},
+		Bounds:  [2]string{"datum {x: V, y: scalar}: V over 21 shapes (10 scalar kinds incl. named, pointer, nil pointer, json.Number, nil; []interface{} of 0..2 scalars, []int8, [2]string, map[string]interface{} over 2 keys, map[string]int8, tagged struct (renamed/hidden/unexported/untagged fields, behind a pointer or not), []*int8 with nil, []byte, named-string-keyed map, list of maps, []struct), leaves symbolic; 15 selector forms x 8 operators x 6 literals, with and without an unknown value (quick: every (shape, operator) pair with the 3 direct selector forms + 1 seed-selected, literal \"1\" + 1 seed-selected, no unknown value or 1 seed-selected); 15 composite templates (quick: 3 seed-selected per pair) (connectives, quantifiers in all binding modes, nested, aliases, JSON pointers); three Go representations of one document", "all 21 shapes"},
 		Outside: "what refEval calls unspecified (assumed away): non-canonical list indices, NaN; datum shapes beyond the 21; more than one container level below x; map key types other than string / named string",
 	},
 	"C20": {
@@ -100,8 +100,8 @@ var properties = map[string]propSpec{
 	},
 	"C11": {
 		Level: "model_checking", Technique: techSX + "; the budget is a symbolic uint64 case-split by the parser's own comparison",
-		Bounds:  [2]string{"13 inputs (valid, invalid with each error production, nesting <= 2) x budgets n in [0,10] U [N-10,N+10] U [2^62,2^64) (N = unlimited step count, measured on the path); nesting depth 6..8 under budgets 50..2000; CreateEvaluator/CreateFilter hand-over on 6 inputs", "windows of 96 around 0 and N"},
-		Outside: "budgets strictly between the windows (the comb of all N thresholds is quadratic under re-execution); inputs outside the corpus",
+		Bounds:  [2]string{"13 inputs (valid, invalid with each error production, nesting <= 2) x budgets n in [0,10] U [N-10,N+10] U [2^62,2^64) (N = unlimited step count, measured on the path); one seed-selected of 8 short inputs (among them mid-parse errors: invalid UTF-8, malformed number, index on the left, bad escape) x EVERY budget 0..N+2; nesting depth 6..8 under budgets 50..2000; CreateEvaluator/CreateFilter hand-over on 6 inputs", "windows of 96 around 0 and N; all 8 short inputs x every budget 0..N+2"},
+		Outside: "budgets strictly between the windows on the long inputs (every budget is covered on the 8 short ones); inputs outside the corpus",
 		StepBudget: 600_000_000,
 	},
 	"C18": {
@@ -162,8 +162,8 @@ var properties = map[string]propSpec{
 	},
 	"C09": {
 		Level: "model_checking", Technique: techSX,
-		Bounds:  [2]string{"8 operators x 44 datum shapes (quick: a seed-selected half / third of the (shape, operator) pairs per harness) (every reflect.Kind incl. Invalid, nil/odd elements in containers) x literal (every string <= 2 bytes + 5 fixed spellings); selector direct, through quantifier alias, map value binding, under not/or; datum root", "same"},
-		Outside: "datum shapes other than the 44 listed; literals longer than 2 symbolic bytes",
+		Bounds:  [2]string{"8 operators x 52 datum shapes (quick: a seed-selected half / third of the (shape, operator) pairs per harness) (every reflect.Kind incl. Invalid, nil/odd elements in containers) x literal (every string <= 2 bytes + 5 fixed spellings); selector direct, through quantifier alias, map value binding, under not/or; datum root", "same"},
+		Outside: "datum shapes other than the 52 listed; literals longer than 2 symbolic bytes",
 	},
 	"C02": {
 		Level: "model_checking", Technique: techSX,
